@@ -61,6 +61,28 @@ struct App {
     tls_acceptor: TlsAcceptorOptions,
 }
 
+/// Build the name of the file in which an incoming instance is stored,
+/// from the SOP instance UID announced by the peer.
+///
+/// The UID is controlled by the remote application entity,
+/// so it must never be interpreted as a path:
+/// every character other than ASCII letters, digits, `.`, `-` and `_`
+/// (path separators in particular) is replaced by `_`,
+/// which guarantees that the resulting name
+/// always designates a file directly inside the output directory.
+fn instance_file_name(sop_instance_uid: &str) -> String {
+    let mut name: String = sop_instance_uid
+        .trim_end_matches('\0')
+        .chars()
+        .map(|c| match c {
+            'a'..='z' | 'A'..='Z' | '0'..='9' | '.' | '-' | '_' => c,
+            _ => '_',
+        })
+        .collect();
+    name.push_str(".dcm");
+    name
+}
+
 fn create_cstore_response(
     message_id: u16,
     sop_class_uid: &str,
@@ -230,5 +252,16 @@ mod tests {
     #[test]
     fn verify_cli() {
         App::command().debug_assert();
+    }
+
+    #[test]
+    fn instance_file_name_is_never_a_path() {
+        use crate::instance_file_name;
+        assert_eq!(instance_file_name("1.2.840.10008.1\0"), "1.2.840.10008.1.dcm");
+        assert_eq!(instance_file_name("../x"), ".._x.dcm");
+        assert_eq!(instance_file_name("/tmp/x"), "_tmp_x.dcm");
+        assert_eq!(instance_file_name("a/b\\c"), "a_b_c.dcm");
+        assert_eq!(instance_file_name(".."), "...dcm");
+        assert_eq!(instance_file_name(""), ".dcm");
     }
 }
